@@ -128,14 +128,14 @@ def jitter(rng: random.Random, name: str, value):
 
 
 def config_dict(rng: random.Random, opt: str, *, scale: float = 1.0, max_cycles: int | None = None,
-                stop: str = "cycles", jit: bool = False) -> dict:
+                stop: str = "cycles", jit: bool = False, plus: int = 0) -> dict:
     base = dict(FIX[opt]["config"])
     n0 = base["population_size"]
     if jit:
         for k, v in list(base.items()):
             if k not in ("population_size", "max_cycles", "fitness_error", "early_stopping"):
                 base[k] = jitter(rng, k, v)
-    base["population_size"] = int(round(n0 * scale))
+    base["population_size"] = int(round(n0 * scale)) + plus      # plus: sizes that are not multiples of anything
     base["max_cycles"] = max_cycles if max_cycles is not None else rng.choice([1, 2, 3, 5])
     base["early_stopping"] = None
     base["fitness_error"] = None
